@@ -157,6 +157,25 @@ func (c *daemonC) Gen(r *rand.Rand, tier string, emit func(string)) {
 		n = 1500
 	}
 	pols := []string{"no", "always", "on_failure", "exit_on_failure"}
+	// directed: a stop that lands while the launcher of a daemon still runs (with and without a
+	// shutdown command), a stop of a launched daemon, a liveness failure of a launched daemon
+	for _, pol := range pols {
+		for _, sig := range []string{"0", "ign"} {
+			for _, seq := range [][]string{
+				{"1 1", "dstop", "dexit 0", "dquery"},
+				{"1 0", "dstop", "dexit 0", "dquery"},
+				{"1 1", "dstop", "dexit 1", "dquery"},
+				{"1 1", "dexit 0", "dstop", "dquery"},
+				{"1 1", "dexit 0", "dlive", "dquery", "dexit 0", "dquery"},
+				{"1 1", "dexit 0", "dstop", "dstart", "dexit 0", "dquery"},
+			} {
+				emit(fmt.Sprintf("dinit %s 0 %s %s", pol, seq[0], sig))
+				for _, o := range seq[1:] {
+					emit(o)
+				}
+			}
+		}
+	}
 	for k := 0; k < n; k++ {
 		emit(fmt.Sprintf("dinit %s %d %d %d %s", pols[r.Intn(4)], []int{0, 0, 2}[r.Intn(3)], []int{1, 1, 0}[r.Intn(3)], r.Intn(2),
 			[]string{"0", "143", "ign"}[r.Intn(3)]))
